@@ -7,7 +7,8 @@ package main
 // "defer" inside a deferred function literal, "func" inside any other function literal, joined by " && ".
 // Recorded calls: Get/Put on anything whose name contains "pool"/"Pool", the acquire/release helpers, the
 // resets that clear the references, and the few calls that delimit the paths of Serve (handler, response
-// write, flush, hijack).  Inside a deferred function the `return` statements are recorded too (the exile guard).
+// write, flush, hijack).  `return` statements are recorded inside deferred functions (the exile guard) and in the
+// small helpers (an early return guards the release that follows it, e.g. `conn == nil` in hijackConn.Close).
 
 import (
 	"bytes"
@@ -117,8 +118,14 @@ func genC09Sites() {
 				walk(x.Body, append(append([]string{}, guards...), "func"), false)
 				return
 			case *ast.ReturnStmt:
-				if inDefer {
+				// early returns are guards of what follows them: recorded inside deferred functions and in the
+				// small acquire/release helpers (not in the long bodies of Serve / ContinueReadBodyStream)
+				if inDefer || (name != "Server.Serve" && name != "ContinueReadBodyStream") {
+					for _, r := range x.Results {
+						walk(r, guards, inDefer)
+					}
 					emit(guards, "return")
+					return
 				}
 			case *ast.CallExpr:
 				// arguments first (evaluation order), then the call itself
